@@ -38,6 +38,9 @@ type Ctx struct {
 
 	parents map[*ast.File]map[ast.Node]ast.Node
 	stats   map[string]any
+
+	fnIndex       map[*types.Func]*FuncInfo
+	effMemo       map[*types.Func]*modEffect
 }
 
 func P(rel string) string { return modPath + "/" + rel }
